@@ -41,6 +41,14 @@ class Run:
         self.samples = []
         self.counters = {}
         self.assumptions = []
+        if not replay:
+            # replay files of an earlier run with the same seed would be misleading
+            import glob
+            for f in glob.glob(os.path.join(REPLAYS, "%s-s%d-*.json" % (prop, seed))):
+                try:
+                    os.remove(f)
+                except OSError:
+                    pass
         self.known = [k for k in load_known() if k["property"] == prop or prop in k.get("also", [])]
         self.witness_ran = {}       # finding id -> failed? (for "no longer reproduces" notes)
         self.rule = ""
